@@ -99,7 +99,27 @@ def base_cfg(cfg):
 
 
 def mask_of(cfg):
-    return CPU_MASKS[cfg.split("@")[1]] if "@" in cfg else ""
+    return CPU_MASKS.get(cfg.split("@")[1], "") if "@" in cfg else ""
+
+
+def env_knobs():
+    """Names of environment variables the library source reads at run time (std::env::var / var_os): the
+    pseudo-configuration "<cfg>@env" runs the binary of <cfg> with each of them set (to "1")."""
+    names = set()
+    src = os.path.join(REPO, "fast-tlsh", "src")
+    pat = re.compile(r'env::var(?:_os)?\s*\(\s*"([A-Za-z_][A-Za-z0-9_]*)"')
+    for root, _, files in os.walk(src):
+        for f in files:
+            if f.endswith(".rs"):
+                try:
+                    names.update(pat.findall(open(os.path.join(root, f), errors="replace").read()))
+                except OSError:
+                    pass
+    return sorted(names)
+
+
+def env_cfgs(base):
+    return [base + "@env"] if env_knobs() else []
 
 
 def binary(cfg, profile="checked"):
@@ -173,6 +193,9 @@ def record(cfg, family, out_path, seed, tier, variant=None, extra=(), profile="c
     env = dict(os.environ)
     if mask_of(cfg):
         env["VREC_CPU_MASK"] = mask_of(cfg)
+    if cfg.endswith("@env"):
+        for k in env_knobs():
+            env[k] = "1"
     try:
         r = sh(cmd, timeout=timeout, env=env)
     except subprocess.TimeoutExpired:
